@@ -57,6 +57,8 @@ def spec_items(tier):
 
 def items(tier, seed):
     for i, it in enumerate(spec_items(tier)):
+        if i % 3 == 2:
+            it = build.with_ns_rewards(it)
         flags = [(i + seed) % 4] if tier == 'quick' else [0, 1, 2, 3]
         yield (it, (i + seed) % 6, tuple(sorted(set(flags))))
 
